@@ -14,6 +14,10 @@ CHECKS = {
    technique="exhaustive product of small alphabets (dimensions x steps x environment kind x transforms x caps x system x controls x all ordered environment lists) through the real compute_dynamics, compared at every step with a first-principles system+ancilla density-matrix simulation",
    text="Every member of the full product of the stated finite alphabets (about 3.9k cases incl. all ordered sub-lists of a 4-environment pool and all orders of commuting environments) is run through the real compute_dynamics and must equal an independent exact joint simulation to 1e-10 at every step; summed-bath equivalence via PT-TEMPO at two epsrel values. Bounded-exhaustive over the alphabet, not over the continuum of unitaries/states.",
    note="Trusts numpy/scipy expm and the reference simulator mc/refmodel.py (self-tested against a second formulation). Non-commuting environment lists are checked for the documented sequential semantics in each order; exact order independence only for commuting environments."),
+ "C18": dict(category="model_checking", design="4/C18",
+   technique="explicit enumeration of all control schedules of the stated families over a 3-step grid, each executed on the real Control/ChainControl + compute_dynamics/PtTebd code and compared state-by-state with a dense reference",
+   text="All 768 schedules (every single control over step x side x int/float spec x map; every ordered pair on one slot over 3 non-commuting maps and all spec pairs; every ordered pair of distinct slots; every order of 3 stacked controls) are installed through the real API and executed with and without an exact ancilla process tensor, at two start times, and on either site of a 2-site PT-TEBD chain; every recorded state must equal the reference that applies pre controls in insertion order, records, applies post controls in insertion order, propagates. Exhaustive within N=3 and the four control maps.",
+   note="Trusts the dense reference simulator (mc/refmodel.py). Chains are uncoupled in this check (coupled chains: C10). Three mixed int/float ordering defects of Control are recorded as known findings."),
 }
 NOT_YET = "check not built yet in this round (see DESIGN.md sec. 8 build order)"
 
